@@ -77,6 +77,11 @@ AllObjects(a) == \A i \in 1..Len(a) : a[i].k = "obj"
 JoinStr(a, sep) == LET RECURSIVE J(_)
                        J(i) == IF i > Len(a) THEN "" ELSE (IF i > 1 THEN sep ELSE "") \o ToStr(a[i]) \o J(i + 1)
                    IN J(1)
+\* "x", "x, and y", "x, y, and z": the connector goes before the last element, after a comma
+Sentence(a, conn) == LET RECURSIVE J(_)
+                         J(i) == IF i > Len(a) THEN ""
+                                 ELSE (IF i = 1 THEN "" ELSE IF i = Len(a) THEN ", " \o conn \o " " ELSE ", ") \o ToStr(a[i]) \o J(i + 1)
+                     IN J(1)
 SliceArr(a, off, len) ==
   LET n  == Len(a)
       o1 == IF off > n THEN n ELSE off
@@ -108,4 +113,10 @@ ApplyArr(f, a) ==
     [] f.n = "size" -> ValR(IntV(Len(a)))
     [] f.n = "join" -> ValR(StrV(JoinStr(a, f.a[1].s)))
     [] f.n = "slice" -> IF f.a[2].n < 1 THEN ErrR ELSE ValR(ArrV(SliceArr(a, f.a[1].n, f.a[2].n)))
+    \* the jekyll plugin filters on arrays (crates/lib/src/jekyll/array.rs)
+    [] f.n = "push" -> ValR(ArrV(Append(a, f.a[1])))
+    [] f.n = "unshift" -> ValR(ArrV(<<f.a[1]>> \o a))
+    [] f.n = "pop" -> ValR(ArrV(IF a = <<>> THEN <<>> ELSE SubSeq(a, 1, Len(a) - 1)))
+    [] f.n = "shift" -> ValR(ArrV(IF a = <<>> THEN <<>> ELSE SubSeq(a, 2, Len(a))))
+    [] f.n = "array_to_sentence_string" -> ValR(StrV(Sentence(a, IF f.a = <<>> THEN "and" ELSE f.a[1].s)))
 =============================================================================
